@@ -481,6 +481,19 @@ func (c *TermCtx) Eq(a, b *Term) *Term {
 	if a.IsConst() && b.Op == OIte && isConstTree(b, 0) {
 		return c.Ite(b.A[0], c.Eq(b.A[1], a), c.Eq(b.A[2], a))
 	}
+	// a constant outside the other side's value range
+	if a.W != 0 {
+		if b.IsConst() && !a.IsConst() {
+			if lo, hi := urange(a, 0); b.K < lo || b.K > hi {
+				return c.F
+			}
+		}
+		if a.IsConst() && !b.IsConst() {
+			if lo, hi := urange(b, 0); a.K < lo || a.K > hi {
+				return c.F
+			}
+		}
+	}
 	// zext(x) == const
 	if b.IsConst() && a.Op == OZext {
 		x := a.A[0]
